@@ -455,6 +455,7 @@ func (g *Gen) loadPtr(st *State, p *Ptr) Val {
 			return Val{T: fmt.Sprintf("(mk$%s %s)", key, strings.Join(fs, " ")), S: srt, Ty: p.Ty}
 		}
 		srt := g.sortOf(p.Ty)
+		g.heapTy[heapName(p.Struct, p.Path)] = p.Ty
 		h := g.heapTerm(st, heapName(p.Struct, p.Path), g.heapSort(srt))
 		return Val{T: fmt.Sprintf("(select %s %s)", h, p.Base), S: srt, Ty: p.Ty}
 	case pElem:
@@ -499,6 +500,7 @@ func (g *Gen) storePtr(st *State, p *Ptr, v Val) {
 		}
 		srt := g.sortOf(p.Ty)
 		name := heapName(p.Struct, p.Path)
+		g.heapTy[name] = p.Ty
 		h := g.heapTerm(st, name, g.heapSort(srt))
 		g.setHeap(st, name, g.heapSort(srt), fmt.Sprintf("(store %s %s %s)", h, p.Base, g.coerce(v, srt)), p.Base)
 	case pElem:
@@ -1033,7 +1035,10 @@ func (g *Gen) enterLoop(fr *Frame, li *loopInfo, st *State, r string, order []*s
 		elem := strings.TrimSuffix(strings.TrimPrefix(srt, "(Array Int "), ")")
 		cur := g.heapTerm(st, k, srt)
 		for _, b := range sortedKeysB(ws.bases[k]) {
-			cur = fmt.Sprintf("(store %s %s %s)", cur, b, g.vc.freshConst("Hle$"+k, elem))
+			ne := g.vc.freshConst("Hle$"+k, elem)
+			cur = fmt.Sprintf("(store %s %s %s)", cur, b, ne)
+			// references stored in loop-carried memory denote objects that already exist at this visit of the loop head
+			older(Val{T: ne, S: elem, Ty: g.heapTy[k]})
 		}
 		st.heaps[k] = g.vc.define("Hl$"+k, srt, cur)
 	}
